@@ -2,7 +2,7 @@
 # usage: import_round.sh <round> <Cnn> : validates /tmp/seed<round>/Cnn/{a,r1,r2} on scratch copies and copies them to /verif/seeded/Cnn-<round>{a,r1,r2}
 set -u
 R="$1"; P="$2"
-for v in a r1 r2; do
+for v in a b r1 r2; do
   S=/tmp/seed$R/$P/$v
   [ -f $S/patch.diff ] || { echo "$P-$v MISSING"; continue; }
   T="$(mktemp -d /tmp/imp.XXXXXX)"
@@ -11,7 +11,7 @@ for v in a r1 r2; do
   A=$(/verif/scripts/repotest.sh "$T/mut" 2>&1 | grep -c "^ok")
   res="suite_ok_pkgs=$A"
   okall=0; [ "$A" = 4 ] && okall=1
-  if [ $v = a ]; then
+  if [ $v = a ] || [ $v = b ]; then
     PKG=$(head -3 $S/demo_test.go.txt | grep -o -E '(fclient|spec|tokens)' | head -1); PKG=${PKG:-.}
     cp $S/demo_test.go.txt "$T/mut/$PKG/zz_demo_test.go"; cp $S/demo_test.go.txt "$T/clean/$PKG/zz_demo_test.go"
     RACE=""; grep -qi "race" $S/meta.json && RACE="-race"
